@@ -21,6 +21,7 @@ import JediVerif.Properties.Mirrors.C14
 import JediVerif.Properties.Mirrors.C15
 import JediVerif.Properties.Mirrors.C16
 import JediVerif.Properties.Mirrors.C17
+import JediVerif.Properties.Mirrors.C19
 
 namespace Jedi.Mirrors
 open Jedi
